@@ -50,6 +50,18 @@ NEEDS = {
     "C16b": "ThreadPoolServer: a client that resets (RST) its connection while still in the accept backlog or right after garbage: getpeername() raises outside the try block and kills the accept loop",
     "C19b": "a short send() answer from the kernel (socket accepts fewer bytes than offered): return value ignored, bytes skipped",
     "C20b": "upload of a file whose LAST chunk is a full chunk of NUL bytes (seek instead of write, no truncate): trailing zeros lost",
+    "C01c": "an argument, keyword argument or result whose type is a proper subclass of tuple (namedtuple, user subclass): `issubclass(type(obj), tuple)` in _box flattens it into a plain tuple sent by value",
+    "C02c": "comparing a proxy with itself (p == p, p != p) for a target whose __eq__/__ne__ is observable or not reflexive: identity short-circuit in BaseNetref.__eq__/__ne__ answers locally",
+    "C03c": "a history: a frozenset/slice with a non-value member sent by reference earlier on the same connection and direction, then a plain frozenset/slice reaching _box directly (bare result, or tuple element next to a reference): per-connection memo keyed by type",
+    "C05c": "one packet whose on-wire payload size is k*64000 - d, d in 0..4: chunked write loop runs over the payload length, not header + payload (last bytes never sent)",
+    "C08c": "a handler raising a BaseException that is neither Exception, SystemExit nor KeyboardInterrupt (GeneratorExit, asyncio.CancelledError, custom): narrowed except clause in _dispatch_request, no response is sent and the connection dies",
+    "C10c": "an object sent by reference in the REPLY to an asynchronous request whose AsyncResult is dropped without reading .value: reply unboxed lazily, no proxy -> no release notice -> owner keeps the object",
+    "C11c": "local close() while the peer is not serving (hangs for the sync timeout) or both sides closing at once (each serves the other's close inside its own close: _cleanup runs twice, AttributeError): close notification made synchronous",
+    "C13c": "two threads sending on one connection, one preemption inside _send between the last emptiness test and release() (queue drained under one lock acquisition, no re-check): same mechanism as C08b, found independently",
+    "C15c": "two threads share a connection; the receiver's release+notify lands between the waiter's failed try-lock and Condition.wait (try-lock moved outside the condition): same mechanism as C13b, found independently; the waiter sleeps until its expiry although the reply arrived",
+    "C16c": "ThreadPoolServer: a client that resets its connection (poll reports error/hang-up, polling thread drops it) while a newcomer is accepted: _drop_connection closes the connection BEFORE removing the fd_to_conn entry, the late pop removes the newcomer's entry",
+    "C17c": "a tracked client whose socket is already closed (its serving thread is between close and clients.discard) or reset when Server.close() runs: one try around the whole loop, the first failing shutdown() skips every later client",
+    "C18c": "the same (host, port) registering twice with different alias lists, then unregistering: per-server alias index overwritten instead of merged, unregister removes only the last list",
     "C18b": "register, advance the clock, re-register, advance: setdefault never refreshes the time stamp, live server pruned / wrong order",
 }
 
